@@ -326,7 +326,7 @@ func init() {
 	register(&PropDef{
 		ID: "C20", Level: "exploration", Engine: "fedsim",
 		Rule: "case = 1-3 requests among GetInbox / GetOutbox / handler GETs and POSTs modifying the boxes being read, in flight together under a seeded schedule, on a server whose inbox/outbox pages hold 0-30 items (IRIs or embedded values, duplicates at arbitrary positions) and which stores a value of a random vocabulary type (54 ActivityStreams + 9 extension types, Tombstone, missing) with bto/bcc on it and on a nested object, with per-run clock base (1970-2033), skew, zone and clock-jump faults; oracle = served body JSON-equal to the value the application handed to that very request (inbox: later duplicates removed, order kept; handler: bto/bcc removed), Content-Type, Date = RFC 7231 rendering of a value the simulated clock returned to that task, Digest = SHA-256 of exactly the bytes written, 410 for Tombstone, ErrNotFound and nothing written for a missing value.",
-		QuickCases: 3000, QuickBudgetS: 60, ThoroughBudgetS: 600,
+		QuickCases: 8000, QuickBudgetS: 150, ThoroughBudgetS: 600,
 		Drive:  func(c *DriveCtx, r *Rng, k int) { c.Exec(genC20(r, k)) },
 		Oracle: oracleC20,
 		Assumptions: []string{"the input dimension dominates this property; simulation contributes the clock seam (skew, zones, jumps) and readers concurrent with writers",
